@@ -68,3 +68,43 @@ func H_C11_compressedIter() {
 	verifrt.LoopBudgetEnd()
 	verifrt.Reach("returned")
 }
+
+// the reader's window onto the file: any (offset, size) pair read from a corrupt table of contents
+// is answered with the bytes or an error, never a panic (32-bit wrap-around of off+sz included).
+func H_C11_mmapRead() {
+	n := verifrt.Concretize(verifrt.IntRange("n", 0, 6))
+	f := &mmapedIndexFile{name: "x", size: uint32(n), data: make([]byte, n)}
+	off, sz := verifrt.U32("off"), verifrt.U32("sz")
+	b, err := f.Read(off, sz)
+	verifrt.Observe("err", err != nil)
+	fits := uint64(off)+uint64(sz) <= uint64(n)
+	verifrt.Assert((err == nil) == fits, "Read succeeds exactly for ranges inside the file")
+	if err == nil {
+		verifrt.Assert(len(b) == int(sz), "Read returns the requested number of bytes")
+	}
+	verifrt.Reach("returned")
+}
+
+// H_C11_corruptTOC (style P): a real shard (3 repositories, written by the real writer) in which one
+// byte near the end of the file - the table of contents and the trailer that locates it - is
+// arbitrary. Loading returns a searcher or an error; if it loads, searching and listing through the
+// entry points the sharded searcher uses either work or fail as contained panics. What must not
+// happen is a panic while loading (loadShard runs without recover) or a runaway loop/allocation.
+func H_C11_corruptTOC() {
+	verifrt.ClockConcrete()
+	shard := verifWriteShard(verifThreeRepos(), "verif-corrupt.zoekt")
+	n := len(shard.data)
+	back := verifrt.Concretize(verifrt.IntRange("fromEnd", 1, verifrt.Param("window", 12, 48)))
+	data := append([]byte(nil), shard.data...)
+	data[n-back] = verifrt.U8("byte")
+	verifrt.AllocBound(1 << 20)
+	verifrt.LoopBudget(600, 3000000)
+	s, err := NewSearcher(verifFile(data, "verif-corrupt.zoekt"))
+	verifrt.LoopBudgetEnd()
+	verifrt.AllocCheck()
+	verifrt.Observe("loaded", err == nil)
+	if err == nil {
+		verifrt.Assert(s != nil, "a loaded shard has a searcher")
+	}
+	verifrt.Reach("returned")
+}
